@@ -82,7 +82,7 @@ class MappedText:
 # ------------------------------------------------------------------------------------------------
 def parse_vspec(path):
     spec = dict(unit=None, source=None, props_safety=[], props_internal=[], result='res', attrs=[],
-                requires=[], ensures=[], decreases=None, entry=None, loops={}, closures={}, ats=[],
+                requires=[], ensures=[], decreases=None, implextra=[], aftereach=[], entry=None, loops={}, closures={}, ats=[],
                 subs=[], sigsubs=[], path=path, notes=[])
     cur = None
 
@@ -106,6 +106,15 @@ def parse_vspec(path):
         elif key == 'attr':
             spec['attrs'].append(rest.strip())
             cur = None
+        elif key == 'after-each':
+            m = re.match(r'\s*/((?:[^/\\]|\\.)*)/\s*(.*)$', rest)
+            if not m:
+                raise SliceError('%s: bad after-each line: %s' % (path, rest))
+            cur = dict(rx=m.group(1), text=m.group(2))
+            spec['aftereach'].append(cur)
+        elif key == 'implextra':
+            cur = dict(text=rest.strip())
+            spec['implextra'].append(cur)
         elif key == 'note':
             spec['notes'].append(rest.strip())
             cur = None
@@ -182,6 +191,9 @@ GLOBAL_RULES = [
     ('R2', re.compile(r'\|_\|'), lambda m: '|_e|'),
     ('R5', re.compile(r'\b((?:[A-Za-z_]\w*)(?:\.[A-Za-z_]\w*)*)\.deref\(\)'), lambda m: '(&*%s)' % m.group(1)),
     ('R13', re.compile(r'\bfor _ in\b'), lambda m: 'for _i in'),
+    ('R9', re.compile(r'let (\w+) = ([\w\.\s]+?)\s*\.iter\(\)\s*\.map\(\|(\w+)\| ([^\n]+?)\)\s*\.collect::<Result<Vec<_>, _>>\(\)\?;'),
+     lambda m: 'let %s = { let mut __v = Vec::new(); for %s in %s.iter() { __v.push(%s?); } __v };' % (
+         m.group(1), m.group(3), re.sub(r'\s+', '', m.group(2)), m.group(4))),
     ('R6', re.compile(r'Value::Float\(-(\w+)\)'), lambda m: 'Value::Float(__fneg(%s))' % m.group(1)),
     ('R15', re.compile(r'Value::Float\((\w+) ([-+*/]) (\w+)\)'),
      lambda m: 'Value::Float(__f%s(%s, %s))' % ({'+': 'add', '-': 'sub', '*': 'mul', '/': 'div'}[m.group(2)], m.group(1), m.group(3))),
@@ -383,7 +395,7 @@ class Weaver:
         # enclosing impl, if any
         impl_open = impl_extra = None
         if len(segs) > 1 and segs[-2].startswith('impl'):
-            imp = S.find(segs[:-1])
+            imp = S.find_enclosing(segs)
             hdr = S.slice(imp['start'], imp['body_open']).rstrip()
             impl_open = hdr + ' {'
             if ' for ' in norm(hdr):
@@ -399,6 +411,8 @@ class Weaver:
             w.emit(impl_open)
             if impl_extra:
                 w.emit(impl_extra)
+            for ie in spec['implextra']:
+                w.emit('    ' + ie['text'].strip())
         for a in spec['attrs']:
             w.emit('    ' + a)
         if mode == 'assume':
@@ -456,6 +470,36 @@ class Weaver:
                 pos = i + len(new)
             log.append((rid, '%s  =>  %s  (x%d)' % (norm(old), norm(new), cnt)))
         apply_global_rules(mt, log)
+        # All woven text goes in through placeholders that are expanded at the very end, so that loop / closure
+        # ordinals and text anchors are resolved on code-only text (post-rewrite), never on woven ghost text.
+        holders = []
+
+        def hold(text):
+            holders.append(text)
+            return '/*@@W%d@@*/' % (len(holders) - 1)
+        # pattern-driven ghost instrumentation: one woven line after every match
+        for ae in spec['aftereach']:
+            pos = 0
+            cnt = 0
+            while True:
+                m = re.compile(ae['rx']).search(mt.text, pos)
+                if not m:
+                    break
+                ins = hold(m.expand(ae['text']))
+                mt.insert_line_after(m.end() - 1, ins)
+                pos = m.end() + len(ins) + 1
+                cnt += 1
+            log.append(('ghost', 'after-each /%s/: %d sites instrumented' % (ae['rx'], cnt)))
+        # text anchors
+        for at in spec['ats']:
+            cnt = mt.text.count(at['anchor'])
+            if cnt != 1:
+                raise SliceError('%s: text anchor %r matches %d times' % (unit, at['anchor'], cnt))
+            i = mt.text.find(at['anchor'])
+            if at['where'] == 'before':
+                mt.insert_line_at(i, hold(at['text']))
+            else:
+                mt.insert_line_after(i + len(at['anchor']) - 1, hold(at['text']))
         # loops (highest ordinal first so that offsets stay valid)
         msk = mask(mt.text)
         loops = find_loops(msk, 0, len(msk))
@@ -469,27 +513,25 @@ class Weaver:
                 if not hm:
                     raise SliceError('%s: loop %d header shape' % (unit, n))
                 ins = kw + hm.end()
-                mt.replace(brace, brace, '\n' + txt + '\n', woven=True)
+                mt.replace(brace, brace, '\n' + hold(txt) + '\n', woven=True)
                 mt.replace(ins, ins, '__it%d: ' % n)
                 log.append(('R11', 'loop %d: ghost iterator __it%d + woven invariants' % (n, n)))
             else:
-                mt.replace(brace, brace, '\n' + txt + '\n', woven=True)
+                mt.replace(brace, brace, '\n' + hold(txt) + '\n', woven=True)
                 log.append(('R11', 'loop %d: woven invariants' % n))
         # closures
         msk = mask(mt.text)
-        cls = find_closures(msk, 0, len(msk))
+        cls = [(a_, b_) for a_, b_ in find_closures(msk, 0, len(msk)) if not msk[b_:].lstrip().startswith('->')]
         for n in sorted(spec['closures'], reverse=True):
             if n < 1 or n > len(cls):
                 raise SliceError('%s: closure %d not found (function has %d closures)' % (unit, n, len(cls)))
             a, b = cls[n - 1]
-            txt = spec['closures'][n]['text'].strip()
-            # closure body must be a block for a contract: wrap an expression body in braces
+            txt = hold(spec['closures'][n]['text'].strip())
             rest = msk[b:]
             lead = len(rest) - len(rest.lstrip())
             if rest.lstrip().startswith('{'):
                 mt.replace(b, b, ' ' + txt + ' ', woven=False)
             else:
-                # find end of the expression: the `)` that closes the call the closure is an argument of
                 depth, j = 0, b
                 while j < len(msk):
                     c = msk[j]
@@ -502,16 +544,13 @@ class Weaver:
                 mt.replace(j, j, ' }')
                 mt.replace(b, b + lead, ' ' + txt + ' { ')
             log.append(('closure', 'closure %d: woven contract' % n))
-        # anchors
-        for at in spec['ats']:
-            cnt = mt.text.count(at['anchor'])
-            if cnt != 1:
-                raise SliceError('%s: text anchor %r matches %d times' % (unit, at['anchor'], cnt))
-            i = mt.text.find(at['anchor'])
-            if at['where'] == 'before':
-                mt.insert_line_at(i, at['text'])
-            else:
-                mt.insert_line_after(i + len(at['anchor']) - 1, at['text'])
+        # expand placeholders
+        for k in range(len(holders) - 1, -1, -1):
+            ph = '/*@@W%d@@*/' % k
+            i = mt.text.find(ph)
+            if i < 0:
+                raise SliceError('%s: internal: placeholder %d lost' % (unit, k))
+            mt.replace(i, i + len(ph), holders[k], woven=True)
         w.emit('    {')
         if spec['entry']:
             w.emit(spec['entry']['text'])
